@@ -185,6 +185,8 @@ CallFailed(e) ==
   \*  result legitimately depends on the mantissa precision of the representation; judged by C02.ResultIsRefAllReps instead)
   \cup (IF Len(e.rr) = 1 \/ (e.api \in NumBinArith /\ \E i \in 1..Len(e.a) : IsNumK(e.a[i]) /\ BigLm(e.a[i].v)) THEN {} ELSE {"C20.RepInvariant"})
   \cup (IF e.r.ok /\ ~WellFormedR(e.r) THEN {"C06.WellFormed"} ELSE {})
+  \* results computed from every physical representation of the operands (non-normalized input strings, other precisions) are well-formed too
+  \cup (IF \E i \in 1..Len(e.rr) : e.rr[i].ok /\ ~WellFormedR(e.rr[i]) THEN {"C06.WellFormed"} ELSE {})
   \cup (IF e.r.ok /\ AllWhollyKnown(e.a) /\ ~WhollyKnown(e.r.val) /\ e.api \in AllOps THEN {"C01.KnownInKnownOut"} ELSE {})
   \cup (IF e.r.ok /\ AllWhollyKnown(e.a) /\ e.api \in NeverNullOps /\ e.r.val.st = "null" THEN {"C01.NeverNull"} ELSE {})
 CallNontrivial(e) == e.r.ok
@@ -252,13 +254,17 @@ ArgTuples(op) ==
     [] op \in BoolUn -> {<<x>> : x \in BoolK1}
     [] op \in {"Index", "HasIndex"} ->
          UNION {{<<c, k>> : c \in AllVals(t), k \in IF t.k = "map" THEN KeyStrs ELSE KeyNums} : t \in IndexableT}
+         \* strings and keys that have a non-normalized spelling without any combining mark (OHM SIGN, conjoining jamo)
+         \cup {<<SeqV(TList(TStr), <<StrV(<<"omega">>), StrV(<<"hangul", "a">>)>>), k>> : k \in {NumV(0), NumV(4)}}
+         \cup {<<MapV(TMap(TStr), [omega |-> StrV(<<"hangul">>), a |-> StrV(<<"omega", "b">>)]), k>> : k \in {StrV(<<"omega">>), StrV(<<"a">>)}}
     [] op = "HasElement" ->
          UNION {{<<c, m>> : c \in Vals(t, W), m \in Members_(t.e, W)} : t \in SetT}
     [] op = "Length" -> UNION {{<<c>> : c \in Vals(t, W)} : t \in LenT}
     [] op = "GetAttr" -> UNION {{<<c>> : c \in Vals(t, W)} : t \in ObjT}
                          \* attribute names whose spelling is normalized / needs quoting: eacute (precomposed), sp (with a space)
                          \cup {<<MapV(TObj([eacute |-> TNum, a |-> TStr]), [eacute |-> NumV(4), a |-> StrV(<<"a">>)])>>,
-                               <<MapV(TObj([sp |-> TStr]), [sp |-> StrV(<<"b">>)])>>}
+                               <<MapV(TObj([sp |-> TStr]), [sp |-> StrV(<<"b">>)])>>,
+                               <<MapV(TObj([omega |-> TStr, a |-> TStr]), [omega |-> StrV(<<"omega">>), a |-> StrV(<<"hangul", "a">>)])>>}
     [] OTHER -> {}
 
 EqTypes == IF Thorough THEN VT ELSE PrimTypes \cup VT1 \cup TakeN(VT2, 5)
@@ -284,6 +290,7 @@ XFor(op, a) == IF op = "GetAttr" THEN (IF a[1].ty.k = "object" /\ DOMAIN a[1].ty
                ELSE [none |-> TRUE]
 XAll(op, a) == IF op = "GetAttr" /\ a[1].ty.k = "object" /\ DOMAIN a[1].ty.as # {} THEN {[name |-> n] : n \in DOMAIN a[1].ty.as}
                                                                                            \cup (IF "eacute" \in DOMAIN a[1].ty.as THEN {[name |-> "eacute", nfd |-> TRUE]} ELSE {})
+                                                                                           \cup (IF "omega" \in DOMAIN a[1].ty.as THEN {[name |-> "omega", nfd |-> TRUE]} ELSE {})
                ELSE {XFor(op, a)}
 
 =============================================================================
